@@ -1066,16 +1066,17 @@ fn h_oracle(ck: &mut Ck, a: &[&str]) {
             if hook.contains('u') {
                 ck.req("C14", f[5] == h("a/../b"), "subpath written by the hook not reported");
             }
-            let q = &f[4];
+            let q: Vec<&str> = if f[4] == "-" { vec![] } else { f[4].split(';').collect() };
             if hook.contains('e') {
-                ck.req("C14", !q.contains(&format!("{}=", h("zz"))), "empty-valued qualifier inserted by the hook not removed");
+                ck.req("C14", !q.iter().any(|kv| kv.starts_with(&format!("{}=", h("zz")))), "empty-valued qualifier inserted by the hook not removed");
             }
+            ck.req("C14", !q.iter().any(|kv| kv.ends_with("=-")), "empty-valued qualifier handed out");
             if hook.contains('q') {
-                ck.req("C14", q.contains(&format!("{}={}", h("hk"), h("Val"))), "qualifier inserted by the hook not reported");
+                ck.req("C14", q.contains(&format!("{}={}", h("hk"), h("Val")).as_str()), "qualifier inserted by the hook not reported");
             }
             let last_cs = hook.rfind(|c| c == 'm' || c == 'c').map(|i| hook.as_bytes()[i] as char);
             if last_cs == Some('c') {
-                ck.req("C14", q.contains(&format!("{}={}", h("checksum"), h("a:ff,b:00"))), "checksum written by the hook not canonicalised");
+                ck.req("C14", q.contains(&format!("{}={}", h("checksum"), h("a:ff,b:00")).as_str()), "checksum written by the hook not canonicalised");
             }
             if last_cs == Some('m') {
                 ck.fail("C14", "malformed checksum written by the hook accepted");
